@@ -453,6 +453,54 @@ def missing_before_wildcard(col):
                           % (target, path, got if not got.ok else 'returned', t, want), None)
 
 
+class AttrDict(dict):
+    """dict subclass whose instances also carry attributes"""
+
+
+class AttrList(list):
+    """list subclass whose instances also carry attributes"""
+
+
+def _attr_holders():
+    d = AttrDict({'x': 'item-x'})
+    d.x = 'attr-x'
+    l = AttrList(['e0', 'e1'])
+    l.x = 'attr-x'
+    return {'d': d, 'l': l, 'hs': [d, l]}
+
+
+def _attr_state(t):
+    return {k: (type(h).__name__, list(h.items()) if isinstance(h, dict) else list(h), sorted(h.__dict__.items()))
+            for k, h in (('d', t['d']), ('l', t['l']))}
+
+
+def attribute_vs_item_on_container_subclasses(col):
+    """instances of dict / list subclasses that carry attributes as well as items: a final T.attr step is setattr, T[key] and
+    plain path segments are item assignment - whatever the other namespace holds under the same name"""
+    cases = [
+        ('T.attr, same-named key exists', lambda: T['d'].x, lambda t: setattr(t['d'], 'x', 'NEW')),
+        ('T.attr, new attribute', lambda: T['d'].fresh, lambda t: setattr(t['d'], 'fresh', 'NEW')),
+        ("T['key'], same-named attribute exists", lambda: T['d']['x'], lambda t: t['d'].__setitem__('x', 'NEW')),
+        ('plain segment on a dict subclass', lambda: 'd.x', lambda t: t['d'].__setitem__('x', 'NEW')),
+        ('plain new key on a dict subclass', lambda: Path('d', 'fresh'), lambda t: t['d'].__setitem__('fresh', 'NEW')),
+        ('T.attr on a list subclass', lambda: T['l'].x, lambda t: setattr(t['l'], 'x', 'NEW')),
+        ('T[index] on a list subclass', lambda: T['l'][0], lambda t: t['l'].__setitem__(0, 'NEW')),
+        ('plain segment on a list subclass', lambda: 'l.1', lambda t: t['l'].__setitem__(1, 'NEW')),
+        ('T.attr behind a star', lambda: T['hs'].__star__().x, lambda t: (setattr(t['d'], 'x', 'NEW'), setattr(t['l'], 'x', 'NEW'))),
+    ]
+    for desc, mk, edit in cases:
+        t, twin = _attr_holders(), _attr_holders()
+        edit(twin)
+        got = call(assign, t, mk(), 'NEW')
+        col.case(('attr-vs-item', desc), True)
+        col.count('assignments_attempted')
+        col.count('attribute_vs_item_cases')
+        if not got.ok or _attr_state(t) != _attr_state(twin):
+            col.violation('C11/container-subclass-with-attributes:wrong-namespace',
+                          "assign(.., %s, 'NEW') [%s]: %r ; holders now %s, plain Python gives %s"
+                          % (short(mk()), desc, got if not got.ok else 'returned', _attr_state(t), _attr_state(twin)), None)
+
+
 def reused_assign_object(col, rng):
     """one Assign object evaluated several times (list spec): every evaluation assigns ITS value, with and without missing="""
     for missing in (None, dict):
@@ -497,5 +545,6 @@ def run(ctx):
         deep_wildcards(col, rng)
         reused_assign_object(col, rng)
         missing_before_wildcard(col)
+        attribute_vs_item_on_container_subclasses(col)
     for i in range(ctx.n(300, 3000)):
         one_target(col, rng)
